@@ -206,8 +206,17 @@ def handle : Handler := fun op a => do
     let d ← asDict (← field a "schema")
     if !typeWellFormed d then .error "ill-formed type"
     let ctx ← decCtx (← field a "ctx")
-    return jobj [("result", encResult (changeType ctx d (← asStr (← field a "choice"))).1),
-                 ("schema", .obj (changeType ctx d (← asStr (← field a "choice"))).2),
+    -- `choice`: the drawn `new_type`, or null when the real call made no draw at all.  Where the model reaches the draw
+    -- (two or more candidates) a missing draw is not "failure": it is reported as such
+    let choiceJ := optField a "choice"
+    let drew := match choiceJ with | .null => false | _ => true
+    let choice ← (match choiceJ with | .null => pure "" | j => asStr j)
+    let r := changeType ctx d choice
+    let reachesDraw := dhas "type" d && !ctx.form &&
+      !((getType d).contains "string" && (isHeaderLoc ctx.loc || ctx.loc == .path || ctx.loc == .query)) &&
+      (typeCandidates ctx d).length ≥ 2
+    return jobj [("result", if reachesDraw && !drew then Json.str "DRAW-EXPECTED" else encResult r.1),
+                 ("schema", .obj r.2),
                  ("candidates", .arr ((typeCandidates ctx d).map .str))]
   | "negate" =>
     let d ← asDict (← field a "schema")
